@@ -10,7 +10,9 @@ STEP_BOUNDS = ("pre-state: filtrate / file residue / tree residue / error (arbit
 
 
 def _step(name, tier, layers):
-    return {"name": "walk::glob::verif_kani::" + name, "props": ["C13", "C16", "C20"], "tier": tier,
+    # stacks that contain a negation are also the per-entry code path of C03
+    props = ["C13", "C16", "C20"] + (["C03"] if name in ("step_n", "step_nn", "step_fn", "step_nf") else [])
+    return {"name": "walk::glob::verif_kani::" + name, "props": props, "tier": tier,
             "functions": STEP_FUNCS, "bounds": STEP_BOUNDS + "; stack (source first): " + layers,
             "stubs": STEP_STUB, "replay": "filter_stack"}
 
@@ -45,10 +47,10 @@ HARNESSES = [
     _step("step_nnf", "thorough", "Not, Not, FilterEntry"),
     _step("step_nnn", "thorough", "Not x3"),
     # --- traversal glue ---
-    {"name": "walk::verif_kani::walktree_cancel_guard", "props": ["C13"], "tier": "quick",
+    {"name": "walk::verif_kani::walktree_cancel_guard", "props": ["C13", "C20"], "tier": "quick",
      "functions": ["walk::WalkTree::next", "walk::WalkTree::cancel_walk_tree"],
      "bounds": "next item: exhausted / directory / file / link / error; arbitrary previous is_dir; unwind 6",
-     "stubs": WD_STUBS, "replay": "filter_stack"},
+     "stubs": WD_STUBS, "replay": "filter_stack+walk_errors+link_discard"},
     {"name": "walk::verif_kani::walk_error_from_walkdir_error", "props": ["C20"], "tier": "quick",
      "functions": ["<WalkError as From<walkdir::Error>>::from", "WalkError::path", "WalkError::depth"],
      "bounds": "Io without path / Io with path / Loop; arbitrary depth (full width); unwind 6",
